@@ -36,7 +36,9 @@ def plan(tier, seed):
         Part(H, "supports", {}, 200, 30, "supports <=> same group,name,major and minor >="),
         Part(H, "hash_eq", {}, 120, 30, "eq => same hash; set/dict membership agrees with =="),
         Part(H, "semver", {}, 120, 30, "semver string codec round trip"),
-        Part(H, "marker", {}, 60, 30, "class obtained without version cannot be subclassed"),
+        Part(H, "marker", {"route": "get"}, 60, 30, "class obtained without version cannot be subclassed (get)"),
+        Part(H, "marker", {"route": "getitem"}, 60, 30, "class obtained without version cannot be subclassed (group[name])"),
+        Part(H, "marker", {"route": "ref"}, 60, 30, "class obtained without version cannot be subclassed (ref / class argument)"),
     ]
     for ni in range(3):
         parts.append(Part(H, "codec", {"ni": ni, "vb": 999 if tier == "quick" else 99999}, ct * 2, 60,
